@@ -220,7 +220,8 @@ def argOK (a : Arg) : Bool :=
   else if a.assumedtype then a.ptr == 1 && ordinary a.cbase
   else if a.ptr > 1 then ordinary a.cbase
   else valueDefault a
-       && (baseMatch a.cbase a.fbase || (a.ptr == 1 && a.cbase == .void && a.fbase == .cptr))
+       && (baseMatch a.cbase a.fbase || (a.ptr == 1 && a.cbase == .void && a.fbase == .cptr)
+           || (a.ptr == 0 && a.cbase == .funptr && a.fbase == .cfunptr))   -- by-value argument of a function-pointer typedef type
        && (!a.value || !a.farray)
 
 def shadowOK (a : Arg) : Bool := baseMatch a.scbase a.sfbase
@@ -249,20 +250,60 @@ def itemOK (it : Item) : Bool := it.bufs.all (bufOK it)
 /-! ## callbacks: the abstract interface of a function-pointer argument (`Wrapf.dump_abstract_interfaces`)
     against the parameter list `gen_arg_as_c` prints inside the C function-pointer type -/
 
-/-- one callback parameter as printed in the C function-pointer type -/
-def cbArgC (a : Arg) : ParamC := ⟨a.cbase, a.ptr⟩
+/-- one callback parameter as printed in the C function-pointer type (`gen_arg_as_c` prints a parameter that is
+    itself a function pointer as `ret (*name)(...)`, whatever its own parameter list) -/
+def cbArgC (a : Arg) : ParamC := if a.funptr then ⟨.funptr, 0⟩ else ⟨a.cbase, a.ptr⟩
 
-/-- one callback parameter in the abstract interface: `is_array() > 1` -> `type(C_PTR)`, otherwise `bind_c` -/
+/-- one callback parameter in the abstract interface: a callback taking a callback -> `type(C_FUNPTR), value`
+    (/repo 81aee60; before: `bind_c` of the inner function's result type), `is_array() > 1` -> `type(C_PTR)`,
+    otherwise `bind_c` -/
 def cbArgF (a : Arg) : DummyF :=
-  if a.ptr > 1 then ⟨.cptr, false, .scalar⟩
+  if a.funptr then ⟨.cfunptr, true, .scalar⟩
+  else if a.ptr > 1 then ⟨.cptr, false, .scalar⟩
   else ⟨a.fbase, a.value, if a.farray then .array else .scalar⟩
 
 def cbProto (ps : List Arg) : List ParamC := ps.map cbArgC
 def cbIface (ps : List Arg) : List DummyF := ps.map cbArgF
 
-/-- C return type versus Fortran function result (18.3.6 (2)): scalar, a pointer pairs with `type(C_PTR)` -/
+/-- the signature of a callback as a tree: a parameter is an ordinary argument or again a callback with its own
+    parameter list, to any depth (`int (*outer)(int a, int (*inner)(double z, void (*leaf)(void)))`) -/
+inductive CbP
+  | plain (a : Arg)
+  | cb (ps : List CbP)
+
+/-- nesting depth of one parameter (0 for an ordinary argument) -/
+def CbP.depth : CbP → Nat
+  | .plain _ => 0
+  | .cb ps => 1 + depthList ps
+where depthList : List CbP → Nat
+  | [] => 0
+  | p :: ps => max p.depth (depthList ps)
+
+/-- C class of one parameter of the tree, as printed inside the function-pointer type; `dump_abstract_interfaces`
+    reads from a nested callback only that it is a function pointer: its parameter list is printed on the C side
+    (inside the function-pointer type) and nowhere in Fortran -/
+def cbTreeC : CbP → ParamC
+  | .plain a => cbArgC a
+  | .cb _ => ⟨.funptr, 0⟩
+
+/-- the abstract interface's dummy for one parameter of the tree -/
+def cbTreeF : CbP → DummyF
+  | .plain a => cbArgF a
+  | .cb _ => ⟨.cfunptr, true, .scalar⟩
+
+/-- every ordinary parameter, at every depth of the tree, satisfies `ok` -/
+def CbP.all (ok : Arg → Bool) : CbP → Bool
+  | .plain a => ok a
+  | .cb ps => allList ok ps
+where allList (ok : Arg → Bool) : List CbP → Bool
+  | [] => true
+  | p :: ps => p.all ok && allList ok ps
+
+/-- C return type versus Fortran function result (18.3.6 (2)): scalar, a pointer pairs with `type(C_PTR)`, a
+    function pointer (result of a function-pointer typedef type) with `type(C_FUNPTR)` -/
 def resInterop (c : ParamC) (f : DummyF) : Bool :=
-  f.shape == .scalar && !f.value && (if c.ptr ≥ 1 then f.base == .cptr else baseMatch c.base f.base)
+  f.shape == .scalar && !f.value &&
+    (if c.ptr ≥ 1 then f.base == .cptr else (baseMatch c.base f.base || (c.base == .funptr && f.base == .cfunptr)))
 
 /-- result declaration of the abstract interface: `type(C_PTR)` for void / pointer results, else `f_c_type or f_type` -/
 def cbResF (cb : CBase) (ptr : Nat) (fb : FBase) : DummyF :=
@@ -338,7 +379,8 @@ def resultOK (r : ResultSpec) : Bool :=
        | some d => resInterop ⟨r.cbase, cptr⟩ d
        | none =>
          if r.returnCptr || r.derefPtr then cptr ≥ 1
-         else !r.farray && (if cptr ≥ 1 then r.fbase == .cptr else baseMatch r.cbase r.fbase)))
+         else !r.farray && (if cptr ≥ 1 then r.fbase == .cptr
+                            else (baseMatch r.cbase r.fbase || (r.cbase == .funptr && r.fbase == .cfunptr)))))
 
 /-! ## user structs: `Wrapc.wrap_struct` (C copy of the struct) and `Wrapf.wrap_struct` (bind(C) derived type)
     walk the same `node.variables` list -/
@@ -362,11 +404,17 @@ structure FieldF where
   dims : List Nat    -- extents as written in Fortran
   deriving DecidableEq, Repr
 
+/-- type of a non-pointer member: an interoperable object type, or a function-pointer member (a member whose type
+    is a `typedef ret (*name)(...)`; a function declarator written directly in the struct is rejected by
+    `ast.VariableNode`: "Arguments given to variable") against a `type(C_FUNPTR)` component (18.3.3) -/
+def memberMatch (c : CBase) (f : FBase) : Bool :=
+  baseMatch c f || (c == .funptr && f == .cfunptr)
+
 /-- struct member versus derived-type component (18.3.4, 18.3.5): the extents in reverse order (C is row-major,
     Fortran column-major); a pointer member pairs with
-    `type(C_PTR)`; otherwise an interoperable type -/
+    `type(C_PTR)`; otherwise an interoperable type or a function pointer against `type(C_FUNPTR)` -/
 def fieldInterop (c : FieldC) (f : FieldF) : Bool :=
-  c.dims.reverse == f.dims && (if c.ptr ≥ 1 then f.base == .cptr else baseMatch c.base f.base)
+  c.dims.reverse == f.dims && (if c.ptr ≥ 1 then f.base == .cptr else memberMatch c.base f.base)
 
 /-- `ast.gen_arg_as_c() + ";"` -/
 def memberC (m : Member) : FieldC := ⟨m.cbase, m.ptr, m.dims⟩
